@@ -22,6 +22,7 @@ FAULTY = {
                                'PROGRAM prog2\nVAR_EXTERNAL\n  g : INT;\nEND_VAR\nEND_PROGRAM\n'], 'P0018', ['g']),
     'duplicate_struct_element': (['TYPE\n  rec : STRUCT\n    a : INT;\n    a : BOOL;\n  END_STRUCT;\nEND_TYPE\n'], 'P0003', ['rec', 'a']),
     'enum_duplicate_value': (['TYPE\n  e : (a, b, a);\nEND_TYPE\n'], 'P0005', ['a']),
+    'enum_duplicate_prefixed_value': (['TYPE\n  e : (e#a, b, a);\nEND_TYPE\n'], 'P0005', ['a', 'e#a']),
     'undeclared_variable': (['FUNCTION_BLOCK one\nVAR\n  a : INT;\nEND_VAR\n  a := 1;\nEND_FUNCTION_BLOCK\n', 'FUNCTION_BLOCK two\nVAR\n  b : INT;\nEND_VAR\n  a := 2;\nEND_FUNCTION_BLOCK\n'], 'P0015', ['a']),
     'subrange_inverted': (['TYPE\n  rng : INT(10..1);\nEND_TYPE\n'], 'P0004', ['10', '10..1', 'INT(10..1)', '1']),
     'subrange_inverted_negative': (['TYPE\n  rng : INT(-1..-10);\nEND_TYPE\n'], 'P0004', ['1', '-1', '-1..-10', 'INT(-1..-10)', '10', '-10']),
